@@ -1,8 +1,162 @@
-import Compio.Model.QuicWakers
+/-
+C16 — machine-checked witnesses of the three defects found in compio-quic's own logic, on the model the driver
+runs (the behaviour is reproduced on the real code by harness/apps/src/bin/c16.rs, cases `f160-two-waiters`,
+`f161-cancelled-closed`, `f162-closed-twice`).
+
+F160  `on_connected` is one `Option<Waker>`, `Connection::accepted_0rtt(&self)` can be awaited by several tasks:
+      the second registration drops the first task's waker; no event and no close ever wakes the first task.
+F161  a dropped `Connection::closed()` future drops the worker's `JoinHandle`, which cancels the worker: no event
+      and no `Endpoint::close` is processed any more, every pending future hangs.
+F162  a second `closed()` finds `worker = None` and panics in `try_state().unwrap_err()` on an open connection.
+-/
+import Compio.Lemmas.QuicWakers
 
 namespace Compio.Cex.C16
 open Compio.QuicWakers Compio.Gen.QuicWakers
 
-theorem closed_takes_worker_handle : closedTakesWorkerHandle = true := by decide
+/-- what the environment can do without the help of the stranded task -/
+def isEnv : Op → Bool
+  | .event _ _ _ _ => true
+  | .close => true
+  | .endpointClose => true
+  | .drained => true
+  | _ => false
+
+theorem phi_zero_not_woken {s : St} {w : Nat} (h : phi s w = 0) : w ∉ s.woken := by
+  intro hm
+  have := List.count_pos_iff.mpr hm
+  unfold phi at h; omega
+
+theorem newly_subset {s s' : St} {w : Nat} (h : w ∈ newlyWoken s s') : w ∈ s'.woken :=
+  List.mem_of_mem_drop h
+
+theorem setSt_keeps {W : World} {s' : St} {x : Waiter} (hx : x ∈ W.owed) (hphi : phi s' x.w = 0) :
+    x ∈ (W.setSt s').owed := by
+  simp only [World.setSt]
+  rw [mem_discharge]
+  exact ⟨hx, fun h => phi_zero_not_woken hphi (newly_subset h)⟩
+
+/-- a waiter whose waker is in no table and was never woken stays owed for ever, whatever the environment does -/
+theorem env_never_wakes (x : Waiter) : ∀ (ops : List Op) (W : World), ops.all isEnv = true →
+    x ∈ W.owed → phi W.st x.w = 0 → x ∈ (W.run ops).owed ∧ x.w ∉ (W.run ops).st.woken := by
+  intro ops
+  induction ops with
+  | nil => intro W _ hx hp; exact ⟨hx, phi_zero_not_woken hp⟩
+  | cons o os ih =>
+    intro W hall hx hp
+    simp only [List.all_cons, Bool.and_eq_true] at hall
+    have key : x ∈ (W.step o).1.owed ∧ phi (W.step o).1.st x.w = 0 := by
+      cases o with
+      | event ev key zr e =>
+        simp only [World.step]
+        split
+        · have hp' : phi (W.st.onEvent ev key zr e) x.w = 0 := by rw [phi_onEvent]; exact hp
+          exact ⟨setSt_keeps hx hp', hp'⟩
+        · exact ⟨hx, hp⟩
+      | close =>
+        have hp' : phi W.st.close x.w = 0 := by unfold St.close; rw [terminate_phi]; exact hp
+        exact ⟨setSt_keeps hx hp', hp'⟩
+      | endpointClose =>
+        simp only [World.step]
+        split
+        · have hp' : phi W.st.close x.w = 0 := by unfold St.close; rw [terminate_phi]; exact hp
+          exact ⟨setSt_keeps hx hp', hp'⟩
+        · exact ⟨hx, hp⟩
+      | drained => exact ⟨hx, hp⟩
+      | poll r k w => simp [isEnv] at hall
+      | cancel r k w => simp [isEnv] at hall
+      | dropStream s i => simp [isEnv] at hall
+      | closedPoll w => simp [isEnv] at hall
+      | closedDrop w => simp [isEnv] at hall
+    exact ih _ hall.2 key.1 key.2
+
+/-! ## F160 -/
+
+/-- two tasks (1 and 2) await `accepted_0rtt()` on clones of one connection -/
+def f160World : World :=
+  World.init.run [.poll .connectionAccepted0rtt 0 1, .poll .connectionAccepted0rtt 0 2]
+
+/-- the second registration is exactly what the one-task-per-slot discipline forbids, and it breaks the
+    "owed ⇒ registered" invariant: task 1 is owed a wake-up, but the slot holds only task 2's waker -/
+theorem f160_counterexample :
+    admissible (World.init.step (.poll .connectionAccepted0rtt 0 1)).1 (.poll .connectionAccepted0rtt 0 2) = false ∧
+    (⟨.connectionAccepted0rtt, 0, 1⟩ : Waiter) ∈ f160World.owed ∧
+    f160World.st.tabs .onConnected = [(0, 2)] ∧
+    ¬ Inv f160World := by
+  refine ⟨by decide, by decide, by decide, ?_⟩
+  intro h
+  have := h ⟨.connectionAccepted0rtt, 0, 1⟩ (by decide)
+  revert this; decide
+
+/-- `Connected` wakes task 2 only; a later close wakes nobody: task 1 is stranded -/
+theorem f160_connected_then_close_wakes_only_the_last :
+    (f160World.run [.event .connected 0 false .reset, .close]).st.woken = [2] ∧
+    (⟨.connectionAccepted0rtt, 0, 1⟩ : Waiter) ∈ (f160World.run [.event .connected 0 false .reset, .close]).owed := by
+  decide
+
+/-- … and nothing the environment can do (any events, close, endpoint close) ever wakes task 1 -/
+theorem f160_stranded_forever (ops : List Op) (h : ops.all isEnv = true) :
+    (⟨.connectionAccepted0rtt, 0, 1⟩ : Waiter) ∈ (f160World.run ops).owed ∧ 1 ∉ (f160World.run ops).st.woken :=
+  env_never_wakes ⟨.connectionAccepted0rtt, 0, 1⟩ ops f160World h (by decide) (by decide)
+
+/-! ## F161 -/
+
+/-- task 9 starts `closed()` and drops it (timeout / select); task 1 then blocks in a stream read -/
+def f161World : World :=
+  World.init.run [.closedPoll 9, .closedDrop 9, .poll .recvStreamExecutePollRead 4 1]
+
+theorem f161_counterexample :
+    closedTakesWorkerHandle = true ∧ f161World.worker = .cancelled ∧
+    (⟨.recvStreamExecutePollRead, 4, 1⟩ : Waiter) ∈ f161World.owed := by decide
+
+/-- what reaches the connection through its worker -/
+def isNet : Op → Bool
+  | .event _ _ _ _ => true
+  | .endpointClose => true
+  | .drained => true
+  | _ => false
+
+theorem cancelled_worker_is_deaf : ∀ (ops : List Op) (W : World), W.worker = .cancelled → ops.all isNet = true →
+    (W.run ops).st = W.st ∧ (W.run ops).owed = W.owed ∧ (W.run ops).worker = .cancelled := by
+  intro ops
+  induction ops with
+  | nil => intro W hw _; exact ⟨rfl, rfl, hw⟩
+  | cons o os ih =>
+    intro W hw hall
+    simp only [List.all_cons, Bool.and_eq_true] at hall
+    have key : (W.step o).1.st = W.st ∧ (W.step o).1.owed = W.owed ∧ (W.step o).1.worker = .cancelled := by
+      cases o with
+      | event ev key zr e => simp [World.step, hw]
+      | endpointClose => simp [World.step, hw]
+      | drained => simp [World.step, hw]
+      | close => simp [isNet] at hall
+      | poll r k w => simp [isNet] at hall
+      | cancel r k w => simp [isNet] at hall
+      | dropStream s i => simp [isNet] at hall
+      | closedPoll w => simp [isNet] at hall
+      | closedDrop w => simp [isNet] at hall
+    obtain ⟨i1, i2, i3⟩ := ih _ key.2.2 hall.2
+    exact ⟨by rw [show (W.run (o :: os)) = ((W.step o).1).run os from rfl, i1, key.1],
+           by rw [show (W.run (o :: os)) = ((W.step o).1).run os from rfl, i2, key.2.1], i3⟩
+
+/-- no event from the peer (data, reset, connection lost, idle timeout) and no `Endpoint::close` ever completes
+    the read: the worker that would process them is gone -/
+theorem f161_stranded_forever (ops : List Op) (h : ops.all isNet = true) :
+    (⟨.recvStreamExecutePollRead, 4, 1⟩ : Waiter) ∈ (f161World.run ops).owed ∧ (f161World.run ops).st.woken = [] := by
+  obtain ⟨h1, h2, _⟩ := cancelled_worker_is_deaf ops f161World (by decide) h
+  rw [h1, h2]; decide
+
+/-! ## F162 -/
+
+/-- a second `closed()` while the first one waits, or after the first one was dropped, on an OPEN connection -/
+theorem f162_counterexample :
+    ((World.init.step (.closedPoll 1)).1.step (.closedPoll 2)).2 = .panic ∧
+    (((World.init.step (.closedPoll 1)).1.step (.closedDrop 1)).1.step (.closedPoll 2)).2 = .panic := by
+  decide
+
+/-- on a closed connection the second call returns the error (no panic) -/
+theorem f162_no_panic_once_closed :
+    (((World.init.step (.closedPoll 1)).1.step .close).1.step (.closedPoll 2)).2 = .err .locallyClosed := by
+  decide
 
 end Compio.Cex.C16
